@@ -54,12 +54,7 @@ func runC02(c *core.Ctx) {
 		{"bls", "T(github.com/herumi/bls-eth-go-binary/bls.Sign.FastAggregateVerify(*", "verification must end in the BLS aggregate check"},
 		{"data-matches-root", "T(bytes.Equal(ssv-spec/qbft.HashDataRoot(p1.FullData)#0[:], p1.Message.Root[:]))", "the value must hash to the signed root"},
 	})
-	ensures(c, "C02-R1", ssv+"protocol/v2/types.VerifyByOperators", "err=nil", []Req{
-		{"sig-parsed", "ok(github.com/herumi/bls-eth-go-binary/bls.Sign.Deserialize(*, p0))", ""},
-		{"all-signers-known", "forall(T(phi(false, *true)))", "a signer that is not in the committee makes verification fail (the per-signer found flag must be true for every signer)"},
-		{"root", "ok(ssv-spec/types.ComputeSigningRoot(p1, ssv-spec/types.ComputeSignatureDomain(p2, p3)))", "the root must be computed over the message with the QBFT domain"},
-		{"bls", "T(github.com/herumi/bls-eth-go-binary/bls.Sign.FastAggregateVerify(*", ""},
-	})
+	checkVerifyByOperators(c, "C02-R1")
 
 	// ---------------- R2
 	ud := ctrl + "UponDecided"
@@ -168,4 +163,16 @@ func runC02(c *core.Ctx) {
 	} else {
 		c.Undischarged("C02-R4", "anchor:NonCommitteeValidator.ProcessMessage", err.Error())
 	}
+}
+
+// checkVerifyByOperators: the helper every quorum certificate and every consensus message is
+// verified with refuses signers outside the committee and ends in the BLS aggregate check. Shared
+// by the properties that rest on "2f+1 signers" meaning 2f+1 committee members (C01, C02, C03).
+func checkVerifyByOperators(c *core.Ctx, rule string) {
+	ensures(c, rule, ssv+"protocol/v2/types.VerifyByOperators", "err=nil", []Req{
+		{"sig-parsed", "ok(github.com/herumi/bls-eth-go-binary/bls.Sign.Deserialize(*, p0))", ""},
+		{"all-signers-known", "forall(T(phi(false, *true)))", "a signer that is not in the committee makes verification fail (the per-signer found flag must be true for every signer)"},
+		{"root", "ok(ssv-spec/types.ComputeSigningRoot(p1, ssv-spec/types.ComputeSignatureDomain(p2, p3)))", "the root must be computed over the message with the QBFT domain"},
+		{"bls", "T(github.com/herumi/bls-eth-go-binary/bls.Sign.FastAggregateVerify(*", ""},
+	})
 }
